@@ -2,9 +2,12 @@
 """Imports the output of an independent seed agent (/tmp/seed/<ID>-out/mN) into /verif/seeded/<ID>-mN."""
 import json, os, shutil, glob, sys
 def imp(ID):
-    for m in sorted(glob.glob('/tmp/seed/%s-out/m*' % ID)):
+    rnd = ''
+    if ':' in ID:
+        ID, rnd = ID.split(':')   # e.g. C04:2 imports /tmp/seed/C04-out2/mN as C04-r2mN
+    for m in sorted(glob.glob('/tmp/seed/%s-out%s/m*' % (ID, rnd))):
         if not os.path.exists(m + '/meta.json'): continue
-        name = '%s-%s' % (ID, os.path.basename(m))
+        name = '%s-%s%s' % (ID, ('r%s' % rnd) if rnd else '', os.path.basename(m))
         d = '/verif/seeded/' + name
         os.makedirs(d, exist_ok=True)
         meta = json.load(open(m + '/meta.json'))
@@ -12,7 +15,7 @@ def imp(ID):
         demo = os.path.basename(meta['demo_file'])
         src = [f for f in os.listdir(m) if f.endswith('_test.go')]
         shutil.copy(m + '/' + src[0], d + '/' + demo)
-        meta['origin'] = 'independent sub-agent given only the property text and a scratch worktree (nothing from /verif)'
+        meta['origin'] = 'independent sub-agent given only the property text and a scratch worktree (nothing from /verif)' + ('; round %s: also given the titles of the earlier changes to avoid repeating them' % rnd if rnd else '')
         meta.setdefault('checks_expected_to_fire', [meta['property']])
         json.dump(meta, open(d + '/meta.json', 'w'), indent=1)
         print('imported', name, '-', meta.get('title'))
